@@ -93,9 +93,20 @@ def row_plan(t: catalogue.T, row, i: int, rng: random.Random):
 CAT_SRC = {'pos': 'p{}', 'star': '*s{}', 'kw': 'k{}=v{}', 'dstar': '**d{}'}
 
 
+# layouts of the old elements: as one line; one element per line; "hugging" multi-line elements (the next element starts
+# on the closing line of the previous one, at a smaller column than the previous one started)
+CAT_SRC_HUG = {'pos': 'p{}[\n    0\n]', 'star': '*s{}[\n    0\n]', 'kw': 'k{}=[\n    v{},\n]', 'dstar': '**d{}(\n)'}
+
+
 def argrow_plan(row, i: int, klass: str):
     old = row['old']
-    inner = ', '.join(CAT_SRC[c].format(j, j) for j, c in enumerate(old))
+    layout = (i // 2) % 3
+    if layout == 1:
+        inner = '\n    ' + ',\n    '.join(CAT_SRC[c].format(j, j) for j, c in enumerate(old)) + ('\n' if old else '')
+    elif layout == 2:
+        inner = ', '.join(' ' * (2 * (len(old) - j)) + CAT_SRC_HUG[c].format(j, j) for j, c in enumerate(old))
+    else:
+        inner = ', '.join(CAT_SRC[c].format(j, j) for j, c in enumerate(old))
     src = f'f({inner})' if klass == 'Call' else f'class C({inner}): pass'
     tree = ast.parse(src)
     p = Plan()
